@@ -106,7 +106,15 @@ type GhostField struct {
 	Type   string
 }
 
+type TypeInv struct {
+	Type string
+	Expr SExpr
+	Text string
+	Pkg  string
+}
+
 type SpecFile struct {
+	TypeInvs  []*TypeInv
 	Pkg       string
 	Contracts []*Contract
 	Preds     map[string]*Pred
@@ -116,6 +124,7 @@ type SpecFile struct {
 }
 
 type SpecSet struct {
+	TypeInvs  map[string][]*TypeInv
 	Files     []*SpecFile
 	ByKey     map[string]*Contract // pkgpath + "::" + key ; externs under "::"+key
 	Preds     map[string]*Pred
@@ -130,12 +139,12 @@ var clauseKeywords = map[string]bool{
 	"trusted": true, "loop": true, "decreases": true, "props": true, "noinline": true, "callreq": true,
 	"mustcall": true, "callassert": true, "havoc": true, "replay": true, "bounded": true, "nofork": true,
 	"ghost-effect": true, "known": true, "assume-ensures": true, "opaque": true, "paths": true,
-	"timeout": true, "unroll": true, "nosafe": true, "calls": true, "reads": true,
+	"timeout": true, "unroll": true, "nosafe": true, "calls": true, "reads": true, "typeinv": true, "inline-calls": true,
 }
 
 // loadSpecs reads every zz_verif_contracts*.go under root.
 func loadSpecs(root string) (*SpecSet, error) {
-	ss := &SpecSet{ByKey: map[string]*Contract{}, Preds: map[string]*Pred{}, Imports: map[string]map[string]string{}}
+	ss := &SpecSet{ByKey: map[string]*Contract{}, Preds: map[string]*Pred{}, Imports: map[string]map[string]string{}, TypeInvs: map[string][]*TypeInv{}}
 	var files []string
 	filepath.Walk(root, func(p string, info os.FileInfo, err error) error {
 		if err != nil {
@@ -183,6 +192,9 @@ func loadSpecs(root string) (*SpecSet, error) {
 			ss.Preds[n] = p
 		}
 		ss.Ghosts = append(ss.Ghosts, sf.Ghosts...)
+		for _, ti := range sf.TypeInvs {
+			ss.TypeInvs[ti.Type] = append(ss.TypeInvs[ti.Type], ti)
+		}
 	}
 	return ss, nil
 }
@@ -234,6 +246,17 @@ func parseSpecFile(path, pkg string) (*SpecFile, error) {
 			key, props := splitProps(rest)
 			cur = &Contract{Key: key, Pkg: pkg, Extern: w == "extern", Lemma: w == "lemma", File: path, Line: l.line, Props: props}
 			sf.Contracts = append(sf.Contracts, cur)
+		case "typeinv":
+			// typeinv pkg.Type expr      (self denotes a non-nil *Type allocated before entry)
+			parts := strings.SplitN(rest, " ", 2)
+			if len(parts) != 2 {
+				return nil, fail(fmt.Errorf("typeinv TYPE expr"))
+			}
+			e, err := parseSpecExpr(parts[1])
+			if err != nil {
+				return nil, fail(err)
+			}
+			sf.TypeInvs = append(sf.TypeInvs, &TypeInv{Type: parts[0], Expr: e, Text: parts[1], Pkg: pkg})
 		case "pred", "spec":
 			p, err := parsePred(rest, w == "spec")
 			if err != nil {
